@@ -135,11 +135,11 @@ def source_audit() -> list[str]:
     return hits
 
 
-def axiom_audit(prop: str) -> dict:
+def axiom_audit(prop: str, only_mods: list[str] | None = None) -> dict:
     """#print axioms for every registered theorem of `prop`. Returns {thm: {'ok':bool,'axioms':[...], 'err':str}}."""
     reg = registry().get(prop, {})
     thms = reg.get('theorems', [])
-    mods = reg.get('modules', [f'AmiscProps.{prop}'])
+    mods = only_mods if only_mods is not None else reg.get('modules', [f'AmiscProps.{prop}'])
     res = {t: {'ok': False, 'axioms': None, 'err': 'not checked'} for t in thms}
     if not thms:
         return res
@@ -362,8 +362,16 @@ def prepare_lean(ctx: Ctx) -> tuple[dict, dict]:
     st['build_log'] = out[-3000:] if not ok else ''
     st['checker_cmd'] = f'cd lean && lake build {" ".join(mods)} && lake env lean <#print axioms of registry.json[{ctx.prop}]>'
     st['source_hits'] = source_audit()
-    audit = axiom_audit(ctx.prop) if ok else {t: {'ok': False, 'axioms': None, 'err': 'build failed'}
-                                              for t in reg.get('theorems', [])}
+    if ok:
+        audit = axiom_audit(ctx.prop)
+    else:
+        # some module no longer builds: the theorems of the modules that still do (e.g. the reference-model part) stay discharged,
+        # so that the replay names exactly the obligations that no longer check
+        good = [m for m in mods if len(mods) > 1 and lake_build([m])[0]]
+        audit = axiom_audit(ctx.prop, good) if good else {}
+        for t in reg.get('theorems', []):
+            if t not in audit or not audit[t]['ok']:
+                audit[t] = {'ok': False, 'axioms': None, 'err': 'build failed (module of this theorem no longer compiles)'}
     if ok and not ctx.quick:
         lok, lout = leanchecker(mods)
         st['leanchecker'] = 'ok' if lok else lout
